@@ -283,6 +283,10 @@ func (w *World) snapshot(i int) *Snapshot {
 func (s *Snapshot) built() *builtStore {
 	wk := s.wk
 	if b, ok := wk.built[s.sum]; ok {
+		if s.AppHash == nil {
+			// a re-created Snapshot (the snapshot cache was reset) whose trees are still cached
+			s.AppHash = b.ci.Hash()
+		}
 		return b
 	}
 	b := &builtStore{trees: map[string]*iavl.MutableTree{}, proofs: map[string][]byte{}}
